@@ -1,7 +1,6 @@
 (* C10 Exec: checkers evaluated by vm_compute on (call history, observed behaviour of the Go wheel). *)
 From God Require Export Base.Prelude C10.Model.
 From God Require Import C10.Spec C10.SafeMap.
-From GodGen Require C10_Gen.
 
 (* what the driver saw for one call: error (0 nil, 1 ErrClosed, 2 ErrArgument, 3 panic), the
    (key,value) callbacks run after it in callback order, the pairs handed to the drain function *)
@@ -120,8 +119,10 @@ Inductive smop :=
 | OGet (k : N) (seen : option N)                  (* observed result of Get *)
 | ODump (dold dnew lold lnew size : N).           (* observed deletionOld, deletionNew, len(dirtyOld), len(dirtyNew), Size() *)
 
-Definition sm_maxd : N := Z.to_N C10_Gen.maxDeletion.
-Definition sm_copyt : N := Z.to_N C10_Gen.copyThreshold.
+(* maxDeletion / copyThreshold of safemap.go, written out (Link.link_sm_constants ties them to the regenerated
+   constants): the checkers neither stop building nor follow the code when that file changes *)
+Definition sm_maxd : N := 10000.
+Definition sm_copyt : N := 1000.
 
 Definition optN_eqb (a b : option N) : bool := option_eqb N.eqb a b.
 
